@@ -6784,7 +6784,6 @@ def subn(
     paths.reverse()  # we do this because there might be deletions which will change indices which follow them, so we do higher indices first
 
     total_count = 0
-    skip_sub = False
     dirty = set()  # {AST, ...}
     gen = self.search(pat, nested, ctx=ctx, on=on, self_=self_, recurse=recurse, scope=scope, back=back, asts=asts)
 
@@ -6805,9 +6804,11 @@ def subn(
         elif (parent := matched.parent) and parent.a.__class__ in ASTS_LEAF_FTSTR:  # NotImplementedError, can't currently replace direct Constant child of f/t-string, TODO: allow this when JoinedStr.put_one(field=values) is implemented
             continue
 
+        substituted = False  # at this location, a callback can skip after earlier rounds of `loop` have already substituted
+
         while True:  # for `loop`
             if callback:
-                if skip_sub := callback(matched):
+                if callback(matched):
                     break
 
             repl_ = repl.copy()  # this is duplication of repl template so no options needed
@@ -7007,6 +7008,7 @@ def subn(
                 callback_after(replaced)
 
             total_count += 1
+            substituted = True
 
             if loop is not False:
                 if loop := loop - 1:
@@ -7015,11 +7017,12 @@ def subn(
 
                         continue
 
-                loop = loop_start
-
             break
 
-        if not skip_sub:
+        if loop is not False:
+            loop = loop_start  # also when the callback cut the rounds short
+
+        if substituted:
             if not (count := count - 1):
                 break
 
